@@ -167,13 +167,13 @@ def c13_coldstart(ver):
         # i%3==1: 32 threads pinned to ONE cpu, each sleeping a different 0..400 us before its first call, so
         #         that timer wake-ups preempt a thread in the middle of its first call / of the detection and
         #         the woken thread makes its own first call meanwhile (more runnable threads than CPUs);
-        # i%3==2: 32 threads pinned to one cpu behind a yielding barrier
+        # i%3==2: the same with 48 threads on TWO cpus (a preempted thread and a truly parallel one)
         sd = ver.seed * 100003 + i
         mode, cpu, th = "spin", "-", "16"
         if taskset and i % 3 == 1:
             mode, cpu, th = "sleep", str(i % NCPU), "32"
         elif taskset and i % 3 == 2:
-            mode, cpu, th = "yield", str(i % NCPU), "32"
+            mode, cpu, th = "sleep", "%d,%d" % (i % NCPU, (i + 5) % NCPU), "48"
         cmd = [binp, th, str(sd)] + ([mode] if mode != "spin" else [])
         if cpu != "-":
             cmd = [taskset, "-c", cpu] + cmd
@@ -203,7 +203,7 @@ def c13_coldstart(ver):
                                            detail="%s threads (mode %s, cpu %s) making their first parse concurrently: thread %s got a result different from the sequential parse (seed %s)" % (j["case"][0], j["case"][2], j["case"][3], j["first_bad_thread"], j["case"][1]),
                                            replay=["coldstart"] + j["case"],
                                            replay_cmd=["python3", os.path.join(VERIF, "driver", "coldstart_case.py")] + j["case"]))
-    ver.extra["cold_start"] = dict(processes=n, modes="a third each: 16 threads on all cores released by a spin barrier; 32 threads pinned to one CPU with 0..400 us sleeps before the first call (timer wake-ups preempt a thread inside its first call); 32 threads pinned to one CPU behind a yielding barrier", detections_per_process_histogram={str(k): v for k, v in sorted(hist.items())},
+    ver.extra["cold_start"] = dict(processes=n, modes="a third each: 16 threads on all cores released by a spin barrier; 32 threads pinned to one CPU with 0..400 us sleeps before the first call (timer wake-ups preempt a thread inside its first call); 48 threads pinned to two CPUs, same sleeps", detections_per_process_histogram={str(k): v for k, v in sorted(hist.items())},
                                    max_allocator_events_in_first_call=allocs)
     raced = sum(v for k, v in hist.items() if k > 1)
     ver.extra["cold_start"]["processes_in_which_several_threads_raced_through_detection"] = raced
